@@ -8,6 +8,7 @@ import TsrunVerif.Driver.Emit
 import TsrunVerif.Driver.Erase
 import TsrunVerif.Driver.Parse
 import TsrunVerif.Driver.Ffi
+import TsrunVerif.Driver.Ops
 import TsrunVerif.Driver.Mod
 import TsrunVerif.Driver.Orders
 import TsrunVerif.Driver.Roots
@@ -31,6 +32,8 @@ def main (args : List String) : IO UInt32 := do
   | ["jsonext"] => loop stdin stdout TsrunVerif.Driver.jsonExtLine; return 0
   | ["json"] => loop stdin stdout TsrunVerif.Driver.jsonLine; return 0
   | ["regalloc"] => loop stdin stdout TsrunVerif.Driver.raLine; return 0
+  | ["ops"] => loop stdin stdout TsrunVerif.Driver.opsLine; return 0
+  | ["ctl"] => loop stdin stdout TsrunVerif.Driver.ctlLine; return 0
   | ["ffi"] => loop stdin stdout TsrunVerif.Driver.ffiLine; return 0
   | ["parse"] => loop stdin stdout TsrunVerif.Driver.parseLine; return 0
   | ["erase"] => loop stdin stdout TsrunVerif.Driver.eraseLine; return 0
